@@ -204,6 +204,9 @@ func curvedShapes() []shape {
 		{mv, 2, 0, mv, ar, 2, 2, 0, 0, -2, 0, ar, ar, 2, 2, 0, 0, 2, 0, ar, cl, 2, 0, cl}, // circle cw
 		{mv, 0, 0, mv, qd, 2, 3, 4, 0, qd, cl, 0, 0, cl},                                  // arch closed by a line
 		{mv, 0, 0, mv, cb, 0, 2, 3, 2, 3, 0, cb, ln, 1.5, -1, ln, cl, 0, 0, cl},           // cubic, line, close
+		{mv, 0, 0, mv, cb, 6, 6, -6, 6, 0, 0, cb, cl, 0, 0, cl},                           // teardrop: ONE closed cubic returning to its start with a corner (zero-length close)
+		{mv, 0, 0, mv, cb, -6, 6, 6, 6, 0, 0, cb, cl, 0, 0, cl},                           // the same, clockwise
+		{mv, 0, 0, mv, ar, 3, 2, 0, 3, 0, 1, ar, cl, 0, 0, cl},                            // one large arc closed by a short line
 	}
 	var out []shape
 	for _, d := range raw {
@@ -547,7 +550,7 @@ func simpleOnly(in []shape) []shape {
 func families(tier string) []fw.Family {
 	square := []capper{cappers[2]}
 	curved := curvedShapes()
-	closedCurved := []shape{curved[11], curved[12], curved[13], curved[14]}
+	closedCurved := []shape{curved[11], curved[12], curved[13], curved[14], curved[15], curved[16], curved[17]}
 	fs := []fw.Family{
 		strokeFamily("open 1-segment polylines (L4 mod translation)", openShapes(4, 1), cappers, joiners[:1]),
 		strokeFamily("open 2-segment polylines (L4 mod translation)", openShapes(4, 2), cappers, joiners),
@@ -585,7 +588,7 @@ func Prop() *fw.Property {
 	return &fw.Property{
 		ID:    "C04",
 		Level: "exploration",
-		Rule: "every open polyline with 1-2 (thorough: 1-3) segments and every closed triangle/quadrilateral on the 4x4 lattice (mod translation; simple, self-touching and self-crossing ones tallied separately) plus a menu of 15 curved paths, x widths {1,0.4,2.5} x cappers {Butt,Round,Square} x joiners {Bevel,Round,Miter(4),Miter(2),MiterClip(4),Arcs(4),ArcsClip(4)} x tolerances {0.1,0.01}; " +
+		Rule: "every open polyline with 1-2 (thorough: 1-3) segments and every closed triangle/quadrilateral on the 4x4 lattice (mod translation; simple, self-touching and self-crossing ones tallied separately) plus a menu of 18 curved paths, x widths {1,0.4,2.5} x cappers {Butt,Round,Square} x joiners {Bevel,Round,Miter(4),Miter(2),MiterClip(4),Arcs(4),ArcsClip(4)} x tolerances {0.1,0.01}; " +
 			"NonZero membership of the result (oracle winding on the oracle's flattening) compared with the SVG/PDF stroke definition at grid probes over the bbox grown by w and at probes w/2 -/+ 1.2 and 3 margins from every segment, vertex and end; margin = tol+2*tol; " +
 			"Offset(d, tol) of simple closed contours, both orientations, d in {+-0.3,+-1} compared with the Minkowski dilation/erosion; non-trivial = probes were decidable on both sides",
 		Assumptions: []string{
@@ -687,6 +690,19 @@ func knownPredicates() map[string]func(*fw.Violation) bool {
 			}
 			for _, s := range sps[0].Segs {
 				if s.P0.Dist(s.P1) < w/2 {
+					return true
+				}
+			}
+			return false
+		},
+		// a closed curved contour with a straight segment shorter than w/2
+		"closed-curved-segment-shorter-than-half-width": func(v *fw.Violation) bool {
+			sps, w, ok := parseCase(v.Case)
+			if !ok || !strings.Contains(v.Case, "Stroke(") || !strings.Contains(v.Case, "[curved]") || len(sps) != 1 || !sps[0].Closed {
+				return false
+			}
+			for _, s := range sps[0].Segs {
+				if (s.Kind == oracle.CmdLine || s.Kind == oracle.CmdClose) && s.P0.Dist(s.P1) > 0 && s.P0.Dist(s.P1) < w/2 {
 					return true
 				}
 			}
